@@ -71,8 +71,14 @@ package chainexchange
 //@     before[and_leaves_the_discovered_cache_only_afterwards] arg(0) == res(getChainsDiscoveredAt, 1) && arg(1) == key && dominatedBy(Add, 1)
 //@   at ContainsOrAdd 1
 //@     before[an_unknown_key_is_remembered_as_wanted] arg(0) == res(getChainsWantedAt, 1) && arg(1) == key && arg(2) == chainPortionPlaceHolder && !res(Get, 2, 1)
-//@   at return 0
-//@     before[a_hit_returns_what_is_cached_under_the_requested_key] arg(1) ==> (arg(0) == res(Get, 1, 0).chain && res(Get, 1, 1)) || (arg(0) == res(Get, 2, 0).chain && res(Get, 2, 1))
+//@   at return 1
+//@     before[the_zero_key_is_never_found] !arg(1) && arg(0) == nil
+//@   at return 2
+//@     before[a_wanted_hit_returns_the_chain_cached_under_the_requested_key] arg(1) && arg(0) == res(Get, 1, 0).chain && res(Get, 1, 1) && !res(IsPlaceholder, 1)
+//@   at return 3
+//@     before[a_discovered_hit_returns_the_chain_cached_under_the_requested_key] arg(1) && arg(0) == res(Get, 2, 0).chain && res(Get, 2, 1)
+//@   at return 4
+//@     before[a_miss_is_reported_as_not_found] !arg(1) && arg(0) == nil && !res(Get, 2, 1) && (!res(Get, 1, 1) || res(Get, 1, 0) == chainPortionPlaceHolder)
 
 // The two per-instance tables are distinct maps: established here, never reassigned (no other store to the fields).
 //@ func NewPubSubChainExchange
